@@ -379,6 +379,14 @@ def check_data(case):
     elif ev == "eof":
         p.link.out[sender].eof = True
         p.link.pump()
+    elif ev == "reset":
+        # the transport breaks (ECONNRESET) once what is in flight has been
+        # read: never an end of data, whatever ignoreAbruptClose says
+        raw = rconn.sock
+        while hasattr(raw, "socket"):
+            raw = raw.socket
+        p.link.pump()
+        raw.rx_fault = (raw.rx_total + len(p.link.inp[reader].q), "reset")
     elif ev == "eof_mid_record":
         # deliver only part of one more record, then EOF
         p.link.hold[sender] = True
@@ -408,8 +416,8 @@ def check_data(case):
         FLAVOURS[name].get("v") or "tls13")) == (3, 4) else "tls12-")
     if not bytes(sent).startswith(got):
         return bad("data-not-a-prefix:" + where, "", labels=labels)
-    if ev in ("close_notify", "warning", "fatal", "eof") and got != bytes(
-            sent):
+    if ev in ("close_notify", "warning", "fatal", "eof", "reset") and \
+            got != bytes(sent):
         return bad("data-lost-before-closure:" + where,
                    "got %d of %d bytes before the %s" % (
                        len(got), len(sent), ev), labels=labels)
@@ -455,6 +463,19 @@ def check_data(case):
             return bad("write-after-close:" + where, repr(o3), labels=labels)
         if sess.resumable is not True:
             return bad("write-after-close-kills-resumability:" + where, "",
+                       labels=labels)
+        return good(labels=labels)
+    if ev == "reset":
+        if not (final.state == "exc" and isinstance(
+                final.exc, (OSError, TLSAbruptCloseError))):
+            return bad("transport-reset-reported-as-clean-end:" + where,
+                       "final read: %s (ignoreAbruptClose=%r)" % (
+                           fs, case["ignoreAbrupt"]), labels=labels)
+        if not rconn.closed:
+            return bad("not-closed-after-reset:" + where, "", labels=labels)
+        if usable(sess):
+            return bad("resumable-after-transport-reset:" + where,
+                       "ignoreAbruptClose=%r" % case["ignoreAbrupt"],
                        labels=labels)
         return good(labels=labels)
     if ev in ("eof", "eof_mid_record"):
@@ -591,7 +612,7 @@ def cases(draw, tier):
     if draw(st.integers(0, 3)) == 0:
         return {"k": "data", "fl": draw(st.sampled_from(FL)),
                 "event": draw(st.sampled_from(
-                    ["close_notify", "warning", "fatal", "eof",
+                    ["close_notify", "warning", "fatal", "eof", "reset",
                      "eof_mid_record", "close_inflight",
                      "close_inflight_ctrl", "fatal_then_send"])),
                 "reply_fails": draw(st.booleans()),
@@ -639,7 +660,7 @@ def explicit(tier, seed):
             for k in range(len(alert_positions(fl, side))):
                 yield {"k": "alert", "fl": fl, "side": side, "pos": k,
                        "desc": (40, 47, 70, 80)[k % 4]}
-        for ev in ("close_notify", "warning", "fatal", "eof",
+        for ev in ("close_notify", "warning", "fatal", "eof", "reset",
                    "eof_mid_record"):
             for nrec in (0, 2):
                 for sender in "cs":
